@@ -152,3 +152,41 @@ func vpH_C10_T_prompt_watch() {
 	vpAuditLog(st, "a", true, 5, false)
 	_ = e.Stop()
 }
+
+// vpH_C10_T_late_round_sees_preemptor: a takeover-enabled instance (priority 5) fills a vacancy with two
+// acquisition rounds in flight (two vacancy events; the second round's Create takes 600 ms to reach the store).
+// The faster round wins; a higher-priority instance (priority 9) then legitimately preempts the new leader,
+// unnoticed; only then does the slower round's Create arrive and fail, and that round goes on to look at the
+// record (takeover attempt against a record of higher priority: refused). Nothing the instance does afterwards
+// may overwrite the preemptor's record: replacement only with strictly higher priority.
+func vpH_C10_T_late_round_sees_preemptor() {
+	H := time.Second
+	vpSetOpt("rand-fixed", 1)
+	vpOtherPrio = 9
+	s := vpFollowingInstance(H, func(cfg *ElectionConfig) {
+		cfg.Priority = 5
+		cfg.AllowPriorityTakeover = true
+	})
+	vpOtherPrio = 0
+	time.Sleep(700 * time.Millisecond)
+	vpQuiesce()
+	s.kv.latOps = "create"
+	s.kv.latSeq = []time.Duration{150 * time.Millisecond, 600 * time.Millisecond}
+	s.kv.opLeft = 40
+	s.st.write("env:other", "delete", nil, true, 0)
+	s.st.write("env:other", "delete", nil, true, 0)
+	time.Sleep(400 * time.Millisecond) // the faster round has won
+	vpQuiesce()
+	if !s.e.IsLeader() {
+		vpEndPath("not-elected")
+	}
+	s.st.noEvents = true
+	s.st.write("env:x", "update", vpRecMk("x", "tok-x", 9), false, s.st.lastSeq)
+	time.Sleep(2*H + H/2)
+	vpQuiesce()
+	vpCover("C10.late-round-sees-preemptor")
+	vpAssert("C10.stays-with-highest", s.st.live() && s.st.writer == "env:x")
+	vpAssert("C10.preempted-steps-down", !s.e.IsLeader())
+	vpAuditLog(s.st, "a", true, 5, false)
+	_ = s.e.Stop()
+}
